@@ -57,7 +57,7 @@ type PRemedy struct {
 	NoConfig bool   `json:"no_config,omitempty"` // Remedy.Config.StrategyBasedQueue == nil
 	Quota    int64  `json:"quota"`
 	WSec     int64  `json:"window_s"`
-	TTLHalf  int64  `json:"ttl_half_s"` // TTLSeconds = TTLHalf / 2
+	TTL8     int64  `json:"ttl_eighth_s"` // TTLSeconds = float32(TTL8) / 8 (exactly representable)
 	QSize    int64  `json:"queue_size"`
 	Status   int    `json:"status"`
 	Prz      *PPrz  `json:"prioritization,omitempty"`
@@ -546,7 +546,7 @@ func (x *prunner) scoped(rem int) config.ScopedRemedy {
 			AllowedRequestCount: r.Quota,
 			WindowSizeInSeconds: int(r.WSec),
 			ResponseStatusCode:  r.Status,
-			TTLSeconds:          float32(r.TTLHalf) / 2,
+			TTLSeconds:          float32(r.TTL8) / 8,
 			QueueSize:           r.QSize,
 		}
 		if r.Prz != nil {
